@@ -36,7 +36,9 @@ def jobs_for(tier):
         # constraints applied to a shared referenced type at the member (compile-time sharing)
         tpls += [corpus.BY_ID[i] for i in ('shared-size', 'shared-range', 'combo-default-shared')]
     else:
-        tpls = [t for t in corpus.TEMPLATES if not (t['feats'] & {'real'})]
+        tpls = [t for t in corpus.TEMPLATES if not (t['feats'] & {'real'})] + corpus.generated(exclude={'real'})
+    if tier == 'quick':
+        tpls = tpls + corpus.generated(quick=True, exclude={'real'})
     for t in tpls:
         for codec in ('per', 'uper'):
             jobs.append(dict(id='%s/%s' % (t['id'], codec), template=t['id'], codec=codec, tier=tier,
